@@ -585,8 +585,8 @@ fn components(prop: &str) -> J {
 
 fn rule_for(prop: &str) -> &'static str {
     match prop {
-        "C10" => "One case = one text (swarm-weighted draw from corpus / mutated corpus / rendered tree / soups / splices, optional early source EOF) parsed through the reference and 18 candidate environments. Distinct = distinct 64-bit fingerprint of the complete seam-interaction trace (every Input call with its argument and buffer fill, every source read, every push-back decision, over all candidates). Non-trivial = the reference delivered >= 4 events or >= 1 fault fired.",
-        "C01" => "One case = (text, environment, client schedule). The first `exhaustive_subspace.cases` indices enumerate every short string x 6 environments; the rest are seeded draws. Distinct = distinct fingerprint of the seam-interaction trace (Input calls with arguments and buffer fill, source reads, client calls, events delivered). Non-trivial = >= 4 events delivered or >= 1 fault fired.",
+        "C10" => "One case = one text parsed through the reference and 16-18 candidate environments: first the complete enumerations (context x follower x suffix, short token sequences, short character strings), then swarm-weighted draws from corpus / mutated corpus / rendered tree / soups / splices / deep nests / many-things with optional early source EOF. Distinct = distinct 64-bit fingerprint of the complete seam-interaction trace (every Input call with its argument and buffer fill, every source read, every push-back decision, over all candidates). Non-trivial = the reference delivered >= 4 events or >= 1 fault fired.",
+        "C01" => "One case = (text, environment, client schedule). The first `exhaustive_subspace.cases` indices enumerate every short character string (W5) and every short token sequence (W8) x 6 environments; the rest are seeded draws over W1-W9. Distinct = distinct fingerprint of the seam-interaction trace (Input calls with arguments and buffer fill, source reads, client calls, events delivered). Non-trivial = >= 4 events delivered or >= 1 fault fired.",
         "C17" => "One case = (text, environment, explicit peek/next history, push-mode checks). The first indices enumerate every history with 0..2 peeks before each next and 7 after-end tails for a fixed sample of short streams; the rest are seeded draws. Distinct = distinct fingerprint of (seam-interaction trace, client call sequence, results). Non-trivial = reference stream has >= 4 events.",
         "C18" => "One case = (stored bytes after faults, reader schedule, trap, callback decisions). The first indices enumerate every short byte string x 4 traps; the rest are seeded draws in two configurations (fault-free / fault-injecting, reported separately). Distinct = distinct fingerprint of (reader call sizes and faults, callback decisions and arguments, decode-loop ticks, result kind, stored bytes hash). Non-trivial = >= 4 bytes stored or >= 1 fault fired.",
         _ => "",
@@ -671,7 +671,7 @@ fn evidence_json(cfg: &Config, st: &Stats, total: u64, exhaustive: u64, exhausti
                     "A clean batch is evidence, not proof: the search samples schedules, faults and inputs.",
                     "Char sources are fused (return None forever after the first None); non-fused sources are outside the input contract and are not injected.",
                     "Simulated inputs have capacity >= 8, the documented minimum.",
-                    "A loop that touches no seam is only caught by the wall-clock observer (60 s), never by the step clock.",
+                    "Every loop of the scanner, parser and string input reports to the work clock (guarded hooks); code that loops outside all of them and touches no seam is only caught by the wall-clock observer (20 s).",
                 ]
                 .iter()
                 .map(|s| J::str(s))
